@@ -82,3 +82,41 @@ PROPS['C08'] = {
     'assumptions': H_ASSUME,
     'bounds': {'quick': 'as C02/C05/C10 quick', 'thorough': 'as C02/C05/C10 thorough'},
 }
+
+S_ASSUME = [
+    'sequentially consistent interleavings only (weak-memory executions of the acquire/release operations are not explored)',
+    'scheduling points: every operation of the injected Threading policy (mutex lock, atomic load/store/inc/dec/exchange, condition wait/notify), every operation on the queue\'s shared lists (QueueList policy), every EVENTPP_VERIF_POINT hook (unlocked reads, inside critical sections), thread start/exit, and before parking in a condition wait',
+    'preemption-bounded: all schedules with at most the stated number of preemptions (switches away from a thread that could continue); free choices (who runs when the current thread blocks or ends, which waiter notify_one wakes) are explored in full',
+    'the condition variable model (fw/sched.h VCondVar) follows the standard contract; waitFor durations are abstracted to {0, positive}; no spurious wake-ups',
+    'std::map/unordered_map of listeners and the listener callbacks themselves are not scheduling points',
+]
+
+PROPS['C06'] = {
+    'title': 'Concurrent producers and consumers never lose or duplicate an event',
+    'level': 'exploration',
+    'parts': [{'src': 'harness/squeue.cpp', 'prefix': 'C06/', 'variants': ['g17'], 'defs': ['VERIF_ONLY=6']}],
+    'rule': 'stateless DFS over all schedules of each generated thread configuration (1-2 producers x 1-2 consumers, consumer op lists of length 1-2 over process/processOne/processIf/processUntil/takeEvent/peekEvent/clearEvents) within the preemption bound; oracle = per-event ledger (exactly once, payload intact, destroyed undelivered only inside clearEvents), per producer/consumer order, no deadlock, HB race detector on the shared lists; distinct = distinct per-execution outcome hashes (ledger + call results)',
+    'assumptions': S_ASSUME,
+    'bounds': {'quick': '<=3 child threads, <=3 events, preemption bound 2', 'thorough': '<=4 child threads, preemption bound 3'},
+    'deadline': {'quick': 170, 'thorough': 1700},
+}
+
+PROPS['C07'] = {
+    'title': 'wait/waitFor never miss a wake-up; DisableQueueNotify only defers it',
+    'level': 'exploration',
+    'parts': [{'src': 'harness/squeue.cpp', 'prefix': 'C07/', 'variants': ['g17'], 'defs': ['VERIF_ONLY=7']}],
+    'rule': 'stateless DFS over all schedules of waiter/enqueuer/processor configurations (1-2 waiters using wait or waitFor, enqueuers with plain, single and nested DisableQueueNotify scopes, optional processor) within the preemption bound; terminal states with a thread blocked in wait() are judged by the oracle (pending event + no DisableQueueNotify alive = lost wake-up); wait-return clauses checked on the recorded intervals; distinct = distinct per-execution outcome hashes',
+    'assumptions': S_ASSUME,
+    'bounds': {'quick': '<=3 child threads, preemption bound 2', 'thorough': '<=4 child threads, preemption bound 3'},
+    'deadline': {'quick': 170, 'thorough': 1700},
+}
+
+PROPS['C11'] = {
+    'title': 'A queue is never reported empty while an event is pending or in dispatch',
+    'level': 'exploration',
+    'parts': [{'src': 'harness/squeue.cpp', 'prefix': 'C11/', 'variants': ['g17'], 'defs': ['VERIF_ONLY=11']}],
+    'rule': 'stateless DFS over all schedules of observer (emptyQueue / waitFor(0)) x enqueuer x worker (process/processOne/processIf/processUntil/takeEvent/clearEvents) configurations within the preemption bound, listeners themselves calling emptyQueue(); oracle: for every true emptyQueue() / timed-out waitFor with interval [s,r], each event whose enqueue returned before s has by r had its listener return, or its take/clear call begin (intervals oriented so imprecision only weakens the check)',
+    'assumptions': S_ASSUME,
+    'bounds': {'quick': '3 child threads, preemption bound 2', 'thorough': '<=4 child threads, preemption bound 3'},
+    'deadline': {'quick': 170, 'thorough': 1700},
+}
